@@ -520,9 +520,12 @@ func (bh *Header) RemoveReference(r *Reference) error {
 	}
 	bh.refs = append(bh.refs[:r.id], bh.refs[r.id+1:]...)
 	for i := range bh.refs[r.id:] {
-		bh.refs[i+int(r.id)].id--
+		moved := bh.refs[i+int(r.id)]
+		moved.id--
+		bh.seenRefs[moved.name] = moved.id
 	}
 	r.id = -1
+	r.owner = nil
 	delete(bh.seenRefs, r.name)
 	return nil
 }
@@ -550,9 +553,12 @@ func (bh *Header) RemoveReadGroup(rg *ReadGroup) error {
 	}
 	bh.rgs = append(bh.rgs[:rg.id], bh.rgs[rg.id+1:]...)
 	for i := range bh.rgs[rg.id:] {
-		bh.rgs[i+int(rg.id)].id--
+		moved := bh.rgs[i+int(rg.id)]
+		moved.id--
+		bh.seenGroups[moved.name] = moved.id
 	}
 	rg.id = -1
+	rg.owner = nil
 	delete(bh.seenGroups, rg.name)
 	return nil
 }
@@ -580,9 +586,12 @@ func (bh *Header) RemoveProgram(p *Program) error {
 	}
 	bh.progs = append(bh.progs[:p.id], bh.progs[p.id+1:]...)
 	for i := range bh.progs[p.id:] {
-		bh.progs[i+int(p.id)].id--
+		moved := bh.progs[i+int(p.id)]
+		moved.id--
+		bh.seenProgs[moved.uid] = moved.id
 	}
 	p.id = -1
+	p.owner = nil
 	delete(bh.seenProgs, p.uid)
 	return nil
 }
